@@ -32,6 +32,9 @@ REQUIRED = ['oracle.get-exactly-once', 'oracle.get-yield-order', 'oracle.move-ex
 N = {'quick': 1600, 'thorough': 200000}
 
 
+OPTIMIZED_SAMPLE = 1     # the first shard once more under python -O (vf/runner.py)
+
+
 def exhaustive(tier):
     return False
 
@@ -96,8 +99,15 @@ def get_case(res, case):
     in_file = r.random() < 0.4
     get_ctx = r.choice([1, 3, 77, 255])
     get_id = r.choice([0, 1, 0x7FFF, 0xFFFF, r.randrange(65536)])
+    r2 = rng(seed, 'c19-get-config', i)
+    two_contexts = r2.random() < 0.3
+    file_start = r2.choice([0, 0, 512, 7])
+    switch_at = r2.randrange(n) if n > 1 and not in_file and r2.random() < 0.25 else None
+    if switch_at is not None:
+        res.count('sim.get-entity-reconfigured-meanwhile')
     res.evaluations += 1
-    res.distinct.add('get|%d|%s|%s' % (n, ''.join(str(o)[:2] for o in outcomes), in_file))
+    res.distinct.add('get|%d|%s|%s|%s|%s' % (n, ''.join(str(o)[:2] for o in outcomes), in_file, two_contexts,
+                                             switch_at is not None))
     calls = []
 
     class GetAE(applicationentity.ClientAE):
@@ -105,6 +115,10 @@ def get_case(res, case):
             k = len(calls)
             calls.append(k)
             o = outcomes[k] if k < len(outcomes) else 0
+            if k == switch_at:
+                # the application reconfigures its entity while the retrieve is running: from now on
+                # instances of one class are received into files
+                self.add_scu(_file_storage(), [svc.MR])
             if o == 'raise':
                 raise exceptions.EventHandlingError('cannot store')
             return statuses.Status(o, None) if r.random() < 0.5 else o
@@ -115,7 +129,14 @@ def get_case(res, case):
         ae.add_scu(sopclass.qr_get_scu)
         # storage contexts: the C-STORE requests arrive on these
         ae.add_scu(storage, [svc.CT, svc.MR])
-        store_ctx = {str(c.sop_class): cid for cid, c in ae.context_def_list.items()}
+        if two_contexts:
+            # the same class proposed a second time (another service of the application): requests
+            # for it may arrive on either context
+            ae.add_scu(_file_storage() if in_file else _memory_storage(), [svc.CT])
+            res.count('sim.get-class-on-two-contexts')
+        ctxs_of = {}
+        for cid, c in sorted(ae.context_def_list.items()):
+            ctxs_of.setdefault(str(c.sop_class), []).append(cid)
         assoc = asceprovider.Association(ae, None, 16384)
         stub = Stub.instances[0]
         script = []
@@ -130,8 +151,10 @@ def get_case(res, case):
             ds.SOPInstanceUID = inst
             ds.PatientName = 'GET^%d^%d' % (i, k)
             mid = r.choice([0, 1, k, 0xFFFF, r.randrange(65536)])
-            script.append(('store', (sop, inst, mid, dsutils.encode(ds, True, True))))
-            sent_stores.append((store_ctx[sop], mid, sop, inst))
+            on_ctx = r.choice(ctxs_of[sop])
+            to_file = in_file or (switch_at is not None and k > switch_at and sop == svc.MR)
+            script.append(('store', (sop, inst, mid, dsutils.encode(ds, True, True), on_ctx, to_file)))
+            sent_stores.append((on_ctx, mid, sop, inst))
         # progress reported after the last sub-operation (remaining 0) still is not the final response
         while r.random() < 0.4:
             script.append(('pending', n))
@@ -147,17 +170,19 @@ def get_case(res, case):
                 if arg == n:
                     res.count('sim.progress-after-last-suboperation')
             elif kind == 'store':
-                sop, inst, mid, data = arg
+                sop, inst, mid, data, on_ctx, to_file = arg
                 rq = svc.request_message('CStoreRQMessage', {
                     R.TAG_AFFECTED_SOP_CLASS: sop, R.TAG_COMMAND_FIELD: 0x0001, R.TAG_MESSAGE_ID: mid,
                     R.TAG_PRIORITY: 0, R.TAG_AFFECTED_SOP_INSTANCE: inst}, data)
-                if in_file:
+                if to_file:
                     import tempfile
                     fp = tempfile.TemporaryFile()
-                    fp.write(data)
-                    fp.seek(0)
+                    # (the entity's get_file() may return a start position other than 0: a record
+                    # header of the application's own precedes the data set)
+                    fp.write(b'\xff' * file_start + data)
+                    fp.seek(file_start)
                     rq.data_set = fp
-                stub.script.append((rq, store_ctx[sop]))
+                stub.script.append((rq, on_ctx))
             elif kind == 'final':
                 stub.script.append((svc.request_message('CGetRSPMessage', {
                     R.TAG_AFFECTED_SOP_CLASS: svc.GET, R.TAG_COMMAND_FIELD: 0x8010,
@@ -173,10 +198,10 @@ def get_case(res, case):
         error = None
         try:
             for ctx, item in sopclass.qr_get_scu(assoc, svc.context(get_ctx, svc.GET), q, get_id):
-                if in_file:
+                if hasattr(item, 'read'):
                     try:
                         pos = item.tell()
-                        d = pydicom.dcmread(item, force=True)
+                        d = dsutils.decode(item.read(), True, True)      # from where the file is handed over
                         item.seek(pos)
                     except Exception as exc:
                         d = None
@@ -236,6 +261,14 @@ def _memory_storage():
     return storage
 
 
+def _file_storage():
+    def storage(asce, ctx, msg):
+        pass
+    storage.sop_classes = []
+    storage.store_in_file = True
+    return storage
+
+
 # --------------------------------------------------------------------------
 # C-MOVE provider
 # --------------------------------------------------------------------------
@@ -270,8 +303,24 @@ def move_case(res, case):
                     d.SOPInstanceUID = instances[k]
                     d.PatientName = 'MOVE^%d^%d' % (i, k)
                     yield d
+            supply = gen()
+            if supply_form == 'iterator':
+                # an iterator that is not a generator (no close(), no throw()): the base class's own
+                # default returns one, and so may the application
+                class Supply(object):
+                    def __iter__(self):
+                        return self
+
+                    def __next__(self):
+                        return next(supply)
+                    next = __next__
+                source = Supply()
+            elif supply_form == 'list-iterator' and fault != 'generator-gives-up':
+                source = iter(list(supply))
+            else:
+                source = supply
             return ({'aet': dest_title, 'address': 'dest%d.example' % (i % 7), 'port': 1000 + i % 7}, n,
-                    gen())
+                    source)
 
     # faults of the sub-association: the destination refuses it, or never confirms its release
     # ... accepts it without the context of one instance's class, stops answering in the middle;
@@ -279,6 +328,8 @@ def move_case(res, case):
     fault = r.choice([None] * 6 + ['refuse', 'silent-release', 'silent-store', 'class-not-accepted',
                                    'generator-gives-up', 'destination-releases']) if n else None
     give_up_at = r.randrange(n) if n else 0
+    supply_form = rng(seed, 'c19-move-supply', i).choice(['generator', 'iterator', 'list-iterator'])
+    res.count('sim.move-supply-' + supply_form)
     peer = svc.CooperativePeer(list(outcomes), refuse=(fault == 'refuse'),
                                silent_on_release=(fault == 'silent-release'),
                                refuse_classes=[svc.MR] if fault == 'class-not-accepted' else (),
